@@ -2,8 +2,9 @@
 
 CNF (cnf, cnf_as_set, CNFizer.convert_as_formula, PolarityCNFizer.convert_as_formula):
 every quantifier-free Boolean skeleton of a part (all operator applications up to the part's
-depth over <= 3 atoms and the Boolean constants; atoms are Boolean symbols, LIA/BV relations,
-UF predicates) is converted by the real code.  The oracle
+depth over <= 3 atoms and the Boolean constants; atoms are Boolean symbols, LIA/BV relations
+(one over a term-level ITE), UF predicates, Boolean array reads) is converted by the real code.
+The oracle
   * checks the shape with its own predicates (conjunction of clauses of literals; a literal
     is an atom, a negated atom or a Boolean constant),
   * takes fresh symbols = symbols of the output that are not symbols of the input
@@ -37,7 +38,7 @@ import pysmt.rewritings as rw
 from pysmt.environment import Environment, push_env, pop_env
 from ..core import termio
 from ..core.refsem import (compile_term, free_symbols, Unconstrained, IllTyped, Unsupported)
-from ..core.termgen import Profile, interps, sort_values, levels, flatten
+from ..core.termgen import Profile, interps, sort_values
 from ..core.termio import INT, BOOL
 from ..core.sig import kind as node_kind, subterms_postorder
 from ..core.sweep import sweep
@@ -1157,23 +1158,25 @@ def parts(ctx):
     else:
         cnf("cnf-bool-d2-bin", "bool", 2, 64, mid_ops=_names(*_BIN), top_ops=_names(*_BIN))
         cnf("cnf-bool-d2-tern-top", "bool", 2, 32, mid_ops=_names(*_BIN), top_ops=_names(*_TERN), max_new=1)
-        cnf("cnf-bool-d2-tern-mid", "bool", 2, 128, natoms=2, mid_ops=_names("not", *_TERN),
+        cnf("cnf-bool-d2-tern-mid", "bool", 2, 32, natoms=2, consts=(False,), mid_ops=_names("not", *_TERN),
             top_ops=_names(*_BIN))
     cnf("cnf-bool-d2-ite", "bool", 2, 16, natoms=2, consts=(), mid_ops=_names("not", "iff", "bite"),
         top_ops=_names("not", "and", "iff", "bite"))
     # ---- CNF, depth 3 (shared sub-formulas, IFF/ITE in both polarities), two atoms
-    cnf("cnf-bool-d3", "bool", 3, 32 if q else 128, natoms=2, consts=(), apis=DEEP_APIS,
+    cnf("cnf-bool-d3", "bool", 3, 32, natoms=2, consts=(), apis=DEEP_APIS,
         mid_ops=_names("not", "and", "iff"), top_ops=_names("not", "or", "iff") if q else _names(*_BIN),
-        max_new=1 if q else None)
+        max_new=1)
     if not q:
-        cnf("cnf-bool-d3-ite", "bool", 3, 64, natoms=2, consts=(), apis=DEEP_APIS,
-            mid_ops=_names("not", "or", "implies"), top_ops=_names("bite", "iff", "not"), max_new=1)
+        cnf("cnf-bool-d3-iff-full", "bool", 3, 32, natoms=2, consts=(), apis=DEEP_APIS,
+            mid_ops=_names("not", "iff"), top_ops=_names(*_BIN))
+        cnf("cnf-bool-d3-ite", "bool", 3, 32, natoms=2, consts=(), apis=DEEP_APIS,
+            mid_ops=_names("not", "or"), top_ops=_names("bite", "iff", "not"), max_new=1)
         cnf("cnf-bool-d3-const", "bool", 3, 64, natoms=1, consts=(False,), apis=DEEP_APIS,
             mid_ops=_names("not", "and", "implies"), top_ops=_names(*_BIN), max_new=1)
         cnf("cnf-bool-d4", "bool", 4, 64, natoms=1, consts=(), apis=DEEP_APIS, mid_ops=_names("not", "iff"),
             top_ops=_names("not", "and", "iff", "bite"), max_new=1)
-        cnf("cnf-bool-d4-implies", "bool", 4, 128, natoms=2, consts=(), apis=DEEP_APIS, mid_ops=_names("implies"),
-            top_ops=_names("not", "and", "iff"), max_new=1)
+        cnf("cnf-bool-d4-implies", "bool", 4, 64, natoms=2, consts=(), apis=DEEP_APIS, mid_ops=_names("implies"),
+            top_ops=_names("not", "iff"), max_new=1)
     # ---- CNF, depth 2 over theory atoms
     for al in ALPHABETS[1:]:
         cnf("cnf-%s-d2" % al, al, 2, 8 if q else 32, consts=() if q else (True, False),
@@ -1214,10 +1217,34 @@ def run(ctx):
     ctx.coverage["parts"] = [{"name": p["name"], "depth": p["depth"]} for p in ps]
     ctx.coverage["apis"] = list(CNF_APIS) + ["Ackermannizer.do_ackermannization"]
     sweep(ctx, ps, make)
+    _balance_samples(ctx)
     c = ctx.res.counters
     if c.get("undecided"):
         ctx.exhaustive = False
         ctx.cap_note = "%d cases exceeded the assignment cap and were not fully decided" % c["undecided"]
+
+
+def _balance_samples(ctx):
+    """evidence samples: at most three Ackermann cases from the workers plus three CNF cases of the
+    enumerated space (and(a, or(b, c)), not(ite(a, b, c)), iff(a, x <= y)) converted here"""
+    ack = [x for x in ctx.res.samples if x.get("kind") == "ack"][:3]
+    cnfs = [x for x in ctx.res.samples if x.get("kind") == "cnf"][:3]
+    if len(cnfs) < 3 and not getattr(ctx, "parts", None):
+        env = Environment()
+        push_env(env)
+        try:
+            m = env.formula_manager
+            a, b, c = [m.Symbol(n) for n in "abc"]
+            x, y = m.Symbol("x", env.type_manager.INT()), m.Symbol("y", env.type_manager.INT())
+            for f in (m.And(a, m.Or(b, c)), m.Not(m.Ite(a, b, c)), m.Iff(a, m.LE(x, y))):
+                try:
+                    cnfs.append({"kind": "cnf", "term": termio.dump(f),
+                                 "polarity_cnf": termio.dump(rw.PolarityCNFizer(env).convert_as_formula(f))})
+                except Exception:
+                    pass
+        finally:
+            pop_env()
+    ctx.res.samples[:] = cnfs[:3] + ack
 
 
 def replay(rec):
